@@ -18,7 +18,7 @@ def main(tier, seed, replay):
         tr = k.validate_profile("core", 150)
         k.validate_profile("vis_black", 80)
         k.validate_profile("vis_white", 80)
-        k.validate_profile("rel", 100, monitors_only=True)
+        k.validate_profile("rel", 350, monitors_only=True)
         k.validate_profile("rel_kf", 150, monitors_only=True, known=("F17",))
         k.validate_profile("kf_f17", 1, monitors_only=True, known=("F17",))
     else:
